@@ -22,6 +22,7 @@ import bz2
 import gzip
 import itertools
 import os
+import shutil
 import pathlib
 import tempfile
 
@@ -166,16 +167,16 @@ def make(kind, data, moltype):
     return cogent3.make_unaligned_seqs(data, moltype=moltype, new_type=True)
 
 
-def load(kind, path, moltype):
+def load(kind, path, moltype, **kw):
     import cogent3
 
     if kind == "aa":
-        return cogent3.load_aligned_seqs(path, moltype=moltype, array_align=True)
+        return cogent3.load_aligned_seqs(path, moltype=moltype, array_align=True, **kw)
     if kind == "al":
-        return cogent3.load_aligned_seqs(path, moltype=moltype, array_align=False)
+        return cogent3.load_aligned_seqs(path, moltype=moltype, array_align=False, **kw)
     if kind == "sc":
-        return cogent3.load_unaligned_seqs(path, moltype=moltype)
-    return cogent3.load_unaligned_seqs(path, moltype=moltype, new_type=True)
+        return cogent3.load_unaligned_seqs(path, moltype=moltype, **kw)
+    return cogent3.load_unaligned_seqs(path, moltype=moltype, new_type=True, **kw)
 
 
 def records_of(obj):
@@ -402,6 +403,20 @@ def roundtrip(acc, part, kind, moltype, names, seqs, width, fmt, suffix, deep=Tr
             else:
                 acc.count("loader_failures_explained_by_parser_failure")
         acc.outcome((fmt, "rt", got == want))
+    if got == want and fmt != "json" and not suffix:
+        # the same bytes under a file name whose suffix suggests another format, loaded with the format given
+        # explicitly: the argument, not the suffix, says how to parse
+        other = "phylip" if fmt == "fasta" else "fasta"
+        path2 = _tmp(f"y.{other}")
+        shutil.copyfile(path, path2)
+        try:
+            got2 = records_of(load(kind, path2, moltype, format=fmt))
+        except Exception as e:  # noqa: BLE001
+            got2 = ("raised", type(e).__name__, str(e)[:120])
+        if got2 != want:
+            acc.fail(f"{fmt} loaded with format= given from a file whose suffix suggests another format: differs from loading it by its own suffix ({KIND_LABEL[kind]})",
+                     case, {"got": got2, "want": want, "file": os.path.basename(path2)})
+        acc.outcome((fmt, "explicit format", got2 == want))
     if deep and fmt != "json":
         # load_seq returns the first record
         for nt in (False, True):
